@@ -223,7 +223,7 @@ Lemma commit_eq : forall st t new, cnt st t = zlen (rows st t) ->
   commit st t new =
   mkW (set (rowsOf st) t (rows st t ++ new)) (set (cntOf st) t (cnt st t + zlen new)) (set (exOf st) t true)
       (if existsb (tid_eqb t) (cols st) then cols st else cols st ++ [t])
-      (set_cell (idx st) (nidx st) t (cnt st t, zlen new)) (nidx st) (thrown st).
+      (set_cell (idx st) (nidx st) t (cnt st t, zlen new)) (nidx st) (thrown st) (ana st).
 Proof.
   intros st t new H. unfold commit, write_indices, put_rows, alloc, create_resize, set_cnt, set_rows. simpl.
   rewrite !get_set_same. simpl.
@@ -269,7 +269,8 @@ Record part (st0 st : wstate) : Prop := mkPart {
   p_noex : forall t, ex st t = false -> rows st t = [];
   p_thr : ex st P = false -> thrown st = thrown st0;
   p_cols : forall t, hascol st0 t = true -> hascol st t = true;
-  p_ex : forall t, ex st0 t = true -> ex st t = true
+  p_ex : forall t, ex st0 t = true -> ex st t = true;
+  p_ana : ana st = ana st0
 }.
 
 (* state between two stages of add when no stage has raised so far: E = rows recorded so far,
@@ -289,7 +290,8 @@ Record mid (st0 st : wstate) (E : tid -> list row) (th : option Z) (full : bool)
   m_full : full = true -> zlen (idx st) = nidx st0 + 1;
   m_exC : forall t, ex st t = false -> C t = true;
   m_ex : forall t, ex st0 t = true -> ex st t = true;
-  m_thrE : th <> None -> ex st P = true
+  m_thrE : th <> None -> ex st P = true;
+  m_ana : ana st = ana st0
 }.
 
 Lemma mid_part : forall st0 st E th full C, mid st0 st E th full C -> part st0 st.
@@ -659,18 +661,18 @@ Proof. intros st I. rewrite (inv_nidx _ I). apply zlen_nonneg. Qed.
 Lemma colOf_app : forall ix r t, colOf (ix ++ [r]) t = colOf ix t ++ [get r t].
 Proof. intros. unfold colOf. rewrite map_app. reflexivity. Qed.
 
-Lemma hascol_bump : forall s, forall t, hascol (mkW (rowsOf s) (cntOf s) (exOf s) (cols s) (idx s) (nidx s + 1) (thrown s)) t = hascol s t.
+Lemma hascol_bump : forall s, forall t, hascol (mkW (rowsOf s) (cntOf s) (exOf s) (cols s) (idx s) (nidx s + 1) (thrown s) (ana s)) t = hascol s t.
 Proof. reflexivity. Qed.
 
 (* an accepted add appends exactly the recorded rows and one index row addressing them *)
-Theorem add_acc : forall o d hd st a st',
+Theorem add_acc_full : forall o d hd st a st',
   inv st -> records o a OP = true -> add o d hd st a = (st', Acc) ->
   (forall t, rows st' t = rows st t ++ expected o a t) /\
   (exists r, idx st' = idx st ++ [r] /\ forall t, get r t = (zlen (rows st t), zlen (expected o a t))) /\
   nidx st' = nidx st + 1 /\
   thrown st' = Some (tv st + a_thrown a) /\
   ex st' P = true /\
-  inv st'.
+  inv st' /\ ana st' = ana st.
 Proof.
   intros o d hd st a st' I HP Hadd. unfold add in Hadd.
   destruct (wR o && (is_none (a_rays a) || pols_none (a_pols a))); [discriminate|].
@@ -689,7 +691,7 @@ Proof.
     destruct (nidx st <? 0) eqn:E; [lia|]. reflexivity. }
   assert (HexP : ex s P = true).
   { apply m_thrE0. unfold th_after. rewrite HP. discriminate. }
-  split; [| split; [| split; [| split; [| split]]]].
+  split; [| split; [| split; [| split; [| split; [| split; [| exact m_ana0]]]]]].
   - exact m_rows0.
   - exists (cur_row (idx s) (nidx st)). split; [exact Hidx|]. intro t. apply m_cell0. reflexivity.
   - simpl. lia.
@@ -709,9 +711,9 @@ Proof.
 Qed.
 
 (* a rejected add leaves rows, counters, index table and total_thrown exactly as they were *)
-Theorem add_rej : forall o d hd st a st' e,
+Theorem add_rej_full : forall o d hd st a st' e,
   inv st -> add o d hd st a = (st', Rej e) ->
-  rowsOf st' = rowsOf st /\ cntOf st' = cntOf st /\ idx st' = idx st /\ nidx st' = nidx st /\ thrown st' = thrown st /\ inv st'.
+  rowsOf st' = rowsOf st /\ cntOf st' = cntOf st /\ idx st' = idx st /\ nidx st' = nidx st /\ thrown st' = thrown st /\ inv st' /\ ana st' = ana st.
 Proof.
   intros o d hd st a st' e I Hadd. unfold add in Hadd.
   destruct (wR o && (is_none (a_rays a) || pols_none (a_pols a))); [inversion Hadd; subst; auto 10|].
@@ -739,15 +741,46 @@ Proof.
   assert (Hthr : thrown (rollback st s) = thrown st).
   { unfold rollback. simpl. change (pP (exOf s)) with (ex s P). destruct (ex s P) eqn:Ex; auto. }
   split; [exact Hrows|]. split; [reflexivity|]. split; [exact Hidx|]. split; [reflexivity|]. split; [exact Hthr|].
+  split; [| exact p_ana0].
   destruct I. constructor; unfold rows, cnt, ex, hascol in *; try rewrite Hrows; try rewrite Hidx; try rewrite Hthr; auto.
   - intros t Ht. simpl in Ht. apply inv_noex0. destruct (get (exOf st) t) eqn:E0; auto.
     rewrite (p_ex0 t E0) in Ht. discriminate.
 Qed.
 
+Theorem add_acc : forall o d hd st a st',
+  inv st -> records o a OP = true -> add o d hd st a = (st', Acc) ->
+  (forall t, rows st' t = rows st t ++ expected o a t) /\
+  (exists r, idx st' = idx st ++ [r] /\ forall t, get r t = (zlen (rows st t), zlen (expected o a t))) /\
+  nidx st' = nidx st + 1 /\
+  thrown st' = Some (tv st + a_thrown a) /\
+  ex st' P = true /\
+  inv st'.
+Proof.
+  intros o d hd st a st' I HP Ha.
+  destruct (add_acc_full _ _ _ _ _ _ I HP Ha) as [A [B [C [D [E [F _]]]]]]. auto 10.
+Qed.
+
+Theorem add_rej : forall o d hd st a st' e,
+  inv st -> add o d hd st a = (st', Rej e) ->
+  rowsOf st' = rowsOf st /\ cntOf st' = cntOf st /\ idx st' = idx st /\ nidx st' = nidx st /\
+  thrown st' = thrown st /\ inv st'.
+Proof.
+  intros o d hd st a st' e I Ha.
+  destruct (add_rej_full _ _ _ _ _ _ _ I Ha) as [A [B [C [D [E [F _]]]]]]. auto 10.
+Qed.
+
+(* add() never touches the analysis dataset or its index entries *)
+Theorem add_ana : forall o d hd st a, inv st -> records o a OP = true -> ana (fst (add o d hd st a)) = ana st.
+Proof.
+  intros o d hd st a I HP. destruct (add o d hd st a) as [st' oc] eqn:Ha. simpl. destruct oc.
+  - apply (add_acc_full _ _ _ _ _ _ I HP Ha).
+  - apply (add_rej_full _ _ _ _ _ _ _ I Ha).
+Qed.
+
 (* reopening in append mode recovers exactly the counters the writer had *)
 Theorem reopen_id : forall st, inv st -> reopen st = st.
 Proof.
-  intros st I. destruct st as [r c e co ix n th]. unfold reopen. simpl.
+  intros st I. destruct st as [r c e co ix n th an]. unfold reopen. simpl.
   f_equal.
   - apply per_ext. intro t. rewrite get_per_map.
     pose proof (inv_cnt _ I t) as Hc. pose proof (inv_noex _ I t) as Hn. unfold cnt, rows, ex in *. simpl in *.
